@@ -90,7 +90,7 @@ Definition c04_model_obs (c : term) : term :=
                          (outs ++ [o], r'))
                        (term_list (term_nth c 2)) ([], RNone) in
     TList [TList outs; TBool true]
-  else if is_case c "eq" then
+  else if is_case c "eq" || is_case c "eqv" then
     let e := str_eqb (term_str (term_nth c 1)) (term_str (term_nth c 2)) in TList [TBool e; TBool e]
   else
     let e := str_eqb (show_Z (term_int (term_nth c 1))) (term_str (term_nth c 2)) in TList [TBool e; TBool e].
@@ -126,7 +126,7 @@ Definition c04_spec_ok (c obs : term) : bool :=
               end) (term_list (term_nth c 2)) (term_list a) false
       else
         (* equality and hashing follow the string form *)
-        let e := if is_case c "eq" then str_eqb (term_str (term_nth c 1)) (term_str (term_nth c 2))
+        let e := if is_case c "eq" || is_case c "eqv" then str_eqb (term_str (term_nth c 1)) (term_str (term_nth c 2))
                  else str_eqb (show_Z (term_int (term_nth c 1))) (term_str (term_nth c 2)) in
         term_eqb a (TBool e) && term_eqb b (TBool e)
   | _ => false
